@@ -46,6 +46,9 @@ theorem resKwd_heads_lower :
 /-- every entry of `res_kwd[]` consists of identifier characters only -/
 theorem resKwd_identChars : ∀ k ∈ resKwd, k.toList.all isIdentChar = true := by decide
 
+/-- the escaping is the identity on every entry of `res_kwd[]` (identifier characters, no "__") -/
+theorem resKwd_escape_id : ∀ k ∈ resKwd, escapeChars false false k.toList = k.toList := by decide
+
 theorem reservedKeyword_iff (s : List Char) : reservedKeyword s = true ↔ ∃ k ∈ resKwd, k.toList = s := by
   simp [reservedKeyword, List.any_eq_true]
 
@@ -76,15 +79,48 @@ theorem mkId_eq (fl : Flags) (s : String) (h : s.toList ≠ [' ']) :
   unfold mkId partsLoop
   simp [h, partsLoop]
 
+/-! ### the reserved-word step on the escaped text -/
+
+/-- whatever the escaped text is, after the capitalisation step it is not an entry of `res_kwd[]` -/
+theorem capitaliseIfReserved_not_reserved (out : List Char) :
+    reservedKeyword (capitaliseIfReserved out) = false := by
+  unfold capitaliseIfReserved
+  by_cases hr : reservedKeyword out = true
+  · obtain ⟨c, cs, rfl, ha, hz⟩ := reserved_head_lower hr
+    simp only [hr, if_true]
+    have hu := toUpper_lower c ha hz
+    exact not_reserved_of_upper_head hu.2.2.1 hu.2.2.2
+  · have hf : reservedKeyword out = false := by simpa using hr
+    simp [hf]
+
+theorem capitaliseIfReserved_all_ident (out : List Char) (h : out.all isIdentChar = true) :
+    (capitaliseIfReserved out).all isIdentChar = true := by
+  unfold capitaliseIfReserved
+  by_cases hr : reservedKeyword out = true
+  · obtain ⟨c, cs, rfl, ha, hz⟩ := reserved_head_lower hr
+    simp only [hr, if_true]
+    simp only [List.all_cons, Bool.and_eq_true] at h ⊢
+    exact ⟨(toUpper_lower c ha hz).1, h.2⟩
+  · have hf : reservedKeyword out = false := by simpa using hr
+    simpa [hf] using h
+
+/-- a text that is not reserved is left alone -/
+theorem capitaliseIfReserved_of_not_reserved (out : List Char) (h : reservedKeyword out = false) :
+    capitaliseIfReserved out = out := by
+  simp [capitaliseIfReserved, h]
+
+theorem emitPart_first_eq (fl : Flags) (only nd : Bool) (p : List Char) :
+    emitPart fl true only nd p =
+      (if fl.checkReserved && only then capitaliseIfReserved (escapeChars fl.maskOnlySpaces false p)
+       else escapeChars fl.maskOnlySpaces false p) := by
+  unfold emitPart
+  simp
+
 theorem emitPart_first_all_ident (fl : Flags) (hm : fl.maskOnlySpaces = false) (only nd : Bool) (p : List Char) :
     (emitPart fl true only nd p).all isIdentChar = true := by
-  unfold emitPart
-  simp only [Bool.not_true, Bool.false_and, Bool.false_eq_true, if_false, List.nil_append, hm]
+  rw [emitPart_first_eq, hm]
   split
-  · rename_i hres
-    have hr : reservedKeyword p = true := by simp at hres; exact hres.2
-    obtain ⟨c, cs, rfl, ha, hz⟩ := reserved_head_lower hr
-    simp [(toUpper_lower c ha hz).1, escapeChars_all_ident]
+  · exact capitaliseIfReserved_all_ident _ (escapeChars_all_ident false p)
   · exact escapeChars_all_ident false p
 
 def isAlpha (c : Char) : Bool := ('a' ≤ c && c ≤ 'z') || ('A' ≤ c && c ≤ 'Z')
@@ -104,29 +140,36 @@ theorem isAlpha_not_digit {c : Char} (h : isAlpha c = true) : isDigit c = false 
     · have : (97 : Nat) ≤ c.toNat := h1; omega
     · have : (65 : Nat) ≤ c.toNat := h1; omega
 
+theorem isCIdent_of (c : Char) (cs : List Char) (h1 : isIdentChar c = true) (h2 : isDigit c = false)
+    (h3 : cs.all isIdentChar = true) : isCIdent (c :: cs) = true := by
+  simp [isCIdent, h1, h2, h3]
+
+theorem capitaliseIfReserved_cident (out : List Char) (h : isCIdent out = true) :
+    isCIdent (capitaliseIfReserved out) = true := by
+  unfold capitaliseIfReserved
+  by_cases hr : reservedKeyword out = true
+  · obtain ⟨c, cs, rfl, ha, hz⟩ := reserved_head_lower hr
+    simp only [hr, if_true]
+    have hu := toUpper_lower c ha hz
+    simp only [isCIdent, Bool.and_eq_true] at h
+    exact isCIdent_of _ _ hu.1 hu.2.1 h.2
+  · have hf : reservedKeyword out = false := by simpa using hr
+    simpa [hf] using h
+
 /-- a part that starts with a letter yields a C identifier (no mask-only-spaces flag) -/
 theorem emitPart_first_cident (fl : Flags) (hm : fl.maskOnlySpaces = false) (only nd : Bool)
     (c : Char) (cs : List Char) (hc : isAlpha c = true) :
     isCIdent (emitPart fl true only nd (c :: cs)) = true := by
-  have hall := emitPart_first_all_ident fl hm only nd (c :: cs)
-  unfold emitPart at hall ⊢
-  simp only [Bool.not_true, Bool.false_and, Bool.false_eq_true, if_false, List.nil_append, hm] at hall ⊢
-  split
-  · rename_i hres
-    have hr : reservedKeyword (c :: cs) = true := by simp at hres; exact hres.2
-    obtain ⟨d, ds, hd, ha, hz⟩ := reserved_head_lower hr
-    have hcd : c = d := by injection hd
-    subst hcd
-    have hu := toUpper_lower c ha hz
-    rw [if_pos hres] at hall
-    simp only [List.all_cons, Bool.and_eq_true] at hall
-    simp [isCIdent, hu.1, hu.2.1, hall.2]
-  · rename_i hres
-    rw [if_neg hres] at hall
+  have hesc : isCIdent (escapeChars false false (c :: cs)) = true := by
     have ha := isAlpha_alnum hc
-    unfold escapeChars at hall ⊢
-    simp only [ha, if_true, List.all_cons, Bool.and_eq_true] at hall ⊢
-    simp [isCIdent, isAlnum_identChar ha, isAlpha_not_digit hc, hall.2]
+    have hall := escapeChars_all_ident false (cs)
+    unfold escapeChars
+    simp only [ha, if_true]
+    exact isCIdent_of _ _ (isAlnum_identChar ha) (isAlpha_not_digit hc) (escapeChars_all_ident false cs)
+  rw [emitPart_first_eq, hm]
+  split
+  · exact capitaliseIfReserved_cident _ hesc
+  · exact hesc
 
 /-! ### injectivity on ASN.1-shaped names -/
 
